@@ -15,6 +15,6 @@ rundemo unchanged
 git -C $wt apply $diff || { echo "PATCH DOES NOT APPLY"; exit 1; }
 rundemo changed
 for p in $props; do
-  cd /verif && KV_BUILD=/verif/.build_scratch/t4$slot KV_REPO=$wt ./check $p --tier ${TIER:-quick} 2>&1 | grep -E "^NOTE|VIOLATION|FRAMEWORK|KNOWN|-> " | cut -c1-330
+  cd ${VROOT:-/verif} && KV_BUILD=${VROOT:-/verif}/.build_scratch/t4$slot KV_REPO=$wt ./check $p --tier ${TIER:-quick} 2>&1 | grep -E "^NOTE|VIOLATION|FRAMEWORK|KNOWN|-> " | cut -c1-330
 done
 git -C $wt checkout -q -- . ; git -C $wt clean -fdq -e target
